@@ -324,7 +324,7 @@ def statement_rule(ck, facts, impl_re, what, want):
         ck.bad("R3.2", "R3.2@%s#template" % what, "statements written as %s, expected %s" % (sorted(forms), sorted(want)), c.loc)
 
 
-def no_refusal_rule(ck, facts):
+def no_refusal_rule(ck, facts, crate="sophia_turtle", file_re=r"turtle/src/serializer/(nt|nq)\.rs$", floor=8):
     """R3.4: the N-Triples / N-Quads writer never refuses a term: every error it returns is the writer's (or the source's).
     In nt.rs / nq.rs an `io::Error` may only be *constructed* around another error (the `map_err` that re-wraps the io
     error of an item); an error built from a message or a constant means some well-formed terms are rejected instead of
@@ -332,7 +332,7 @@ def no_refusal_rule(ck, facts):
     n = 0
     made = 0
     for f in facts.fns.values():
-        if f.crate != "sophia_turtle" or not re.search(r"turtle/src/serializer/(nt|nq)\.rs$", f.file):
+        if f.crate != crate or not re.search(file_re, f.file):
             continue
         n += 1
         for bi, t in f.calls():
@@ -348,12 +348,17 @@ def no_refusal_rule(ck, facts):
             else:
                 ck.bad("R3.4", "R3.4@%s#refusal" % root.name, "%s builds an io::Error of its own (%s): the N-Triples/N-Quads writer "
                        "refuses some terms instead of writing them" % (root.name, o[0]), "%s:%s" % (t["file"], t["line"]))
-    ck.floor("R3.4", "functions of the nt/nq serializers", n, 8)
+    ck.floor("R3.4", "functions of the nt/nq serializers", n, floor)
     ck.extra["io_errors_constructed_in_nt_nq"] = made
 
 
 def run(ck, facts, tier):
     facts.require_crates(["sophia_turtle", "sophia_api", "sophia_iri"])
+    import core
+    pr = core.Probe()
+    no_refusal_rule(pr, core.fixture_facts(), crate="vfix", file_re=r"lib\.rs$", floor=0)
+    ck.control("R3.4", "pos_refusing_writer (io::Error built from a message)", pr.fired(r"pos_refusing_writer#refusal$"))
+    ck.control("R3.4", "neg_rewrapping_writer (io::Error around the writer's error)", pr.fired(r"neg_rewrapping_writer"), expect=False)
     no_refusal_rule(ck, facts)
     quoted_string_rule(ck, facts)
     write_term_rule(ck, facts)
